@@ -368,7 +368,8 @@ class Verdict:
         if key in self.seen:
             return "dup"
         self.seen.add(key)
-        if len(self.violations) < 5:
+        self.ctx.log("property failure (not a known finding):", json.dumps(sig, sort_keys=True))
+        if len(self.violations) < int(os.environ.get("VERIF_MAX_REPLAYS", "5")):
             path = write_replay(self.ctx, "failing-input", dict(signature=sig, **payload))
             self.violations.append((path, ""))
         return "violation"
